@@ -189,6 +189,23 @@ class Func:
         n = self.stmts[sid]
         return n.get("callee")
 
+    def binop(self, sid):
+        """(op, lhs, rhs) of a built-in, overloaded or C++20-rewritten binary
+        operator expression, else None."""
+        sid = self.strip(sid)
+        if sid is None or sid <= 0:
+            return None
+        n = self.stmts[sid]
+        k = n["k"]
+        if k in ("BinaryOperator", "CompoundAssignOperator"):
+            ks = self.kids(sid)
+            return n["op"], ks[0], ks[1]
+        if k == "CXXRewrittenBinaryOperator":
+            return n["op"], n["lhs"], n["rhs"]
+        if k == "CXXOperatorCallExpr" and len(n.get("args", [])) == 2 and n.get("op") not in ("()", "[]"):
+            return n["op"], n["args"][0], n["args"][1]
+        return None
+
     def is_call(self, sid):
         return self.stmts[sid]["k"] in ("CallExpr", "CXXMemberCallExpr",
                                         "CXXOperatorCallExpr", "CXXConstructExpr",
@@ -219,6 +236,12 @@ class Func:
         if k in ("BinaryOperator", "CompoundAssignOperator"):
             ks = self.kids(sid)
             return "(%s %s %s)" % (self.text(ks[0], depth + 1), n["op"], self.text(ks[1], depth + 1))
+        if k == "CXXRewrittenBinaryOperator":
+            return "(%s %s %s)" % (self.text(n["lhs"], depth + 1), n["op"], self.text(n["rhs"], depth + 1))
+        if k == "DeclStmt":
+            return "; ".join("%s %s%s" % (d.get("type", ""), d.get("name", ""),
+                                           (" = " + self.text(d["init"], depth + 1)) if d.get("init") else "")
+                             for d in n.get("decls", []))
         if k == "UnaryOperator":
             ks = self.kids(sid)
             if n.get("postfix"):
